@@ -130,7 +130,8 @@ PackRun(f, cwd, spelling, opts, lines) ==
   ELSE
   LET src == AbsP(cwd, srcToks)
       ctx == [f |-> f, root |-> src, rs |-> [rules |-> pr.rules, flags |-> pr.flags], ign |-> opts.ign,
-              deref |-> opts.deref, allow |-> opts.allow]
+              deref |-> opts.deref,
+              allow |-> opts.allow \cup { JoinClean(src, r) : r \in opts.allowrel }]      \* relative prefixes are joined to the root of *this* call
       r == WalkNode(ctx, [src |-> src, dst |-> src], src, DerefDepth, TRUE)
   IN [st |-> r.st, out |-> r.out]
 
